@@ -32,18 +32,14 @@ struct ChineseRemainder {
 
 
         // Computes u = M^-1 in the domain
-	// Then C_12 = (M^-1 mod D)M
     ChineseRemainder(const Ring& R, const RingElement& M, const Domain& D)
-            : _domain(D)  {
-        DomainElement u;
-        _domain.invin( _domain.init(u, M) );
-        _domain.convert(C_12, u);
-        C_12 *= M;
+            : _domain(D), _M(M)  {
+        _domain.invin( _domain.init(_u, M) );
     }
 
 
 
-        // Computes res = A + ((e-A) mod D)*(M^-1 mod D)M
+        // Computes res = A + (((e-A)*M^-1) mod D)*M : for 0 <= A < M, 0 <= res < M*D
         // Then res mod M == A
         // And  res mod D == e
     RingElement & operator()( RingElement& res, const RingElement& A, const DomainElement& e) const {
@@ -51,14 +47,16 @@ struct ChineseRemainder {
         _domain.init(smallA, A);
         _domain.init(smallM);
         _domain.sub(smallM, e, smallA);
+        _domain.mulin(smallM, _u);
         _domain.convert(res, smallM);
-        res *= C_12;
+        res *= _M;
         return res += A;
     }
 
 private:
     Domain _domain;
-    RingElement C_12;
+    DomainElement _u;
+    RingElement _M;
 };
 
 //! CRA2.
